@@ -17,6 +17,10 @@ def check(ctx):
         for fam in FAMILIES:
             check_kernel(ctx, KE, fam, "csd", backend, outputs=("MXX", "mu_r", "mu_i"), rule="R2-cross-term-convention")
     check_dispatch(ctx, rule_prefix="R3.", want_roles=True, kaisers=(True,), roles=("x1", "x2", "starts", "L", "omega"))
+    # in a band-restricted plan every per-bin quantity the dispatcher reads (f, L, starts, anything plan() derives from them) is restricted by the
+    # same mask: otherwise bin i is evaluated at the frequency of bin i of the unrestricted plan (wrong phase slope for a delayed channel)
+    from ..dispatch import check_band_mask
+    check_band_mask(ctx, rule="R6-band-mask")
     # the input x is the first channel and the output y the second for every accepted layout of the two-channel record (2xN, Nx2, 2x2, list)
     from ..inputs import check_record
     check_record(ctx, rule_s=None, rule_r="R4-channel-routing", rule_c=None)
